@@ -5,6 +5,7 @@ package main
 import (
 	"fmt"
 	"net"
+	"strings"
 	"sync"
 	"sync/atomic"
 	"time"
@@ -344,5 +345,110 @@ func runStartFailCase(c cfg, seed uint64, call int, k int64, client bool, keys m
 		res.Violate(fmt.Sprintf("C07 leak class=%s site=%s history=failed-start", fi.Class, fi.Site), fmt.Sprintf("%s failed (%s #%d EMFILE) but descriptor %d (%s, created in %s) is still open", what, vsys.CallName(call), k, fi.FD, fi.Class, fi.Site), map[string]any{"config": c.String()})
 	}
 	keys[fmt.Sprintf("failed-start|%s|%s|k=%d", what, vsys.CallName(call), k)] = struct{}{}
+	return true
+}
+
+// runStartBusyCase: a listener cannot be bound because the address is in use (the socket exists by then). Run /
+// Rotate must report the error and close everything created so far, including listeners bound before the busy one.
+func runStartBusyCase(kind string, keys map[string]struct{}) (ran bool) {
+	mon := newMonitor("startbusy", hooks{})
+	vsys.ResetAlarms()
+	vsys.ResetLedger()
+	vsys.PlanClear()
+	probeTCP := func(network, host string) (net.Listener, string) {
+		l, err := net.Listen(network, net.JoinHostPort(host, "0"))
+		if err != nil {
+			return nil, ""
+		}
+		return l, l.Addr().String()
+	}
+	var holdL net.Listener
+	var holdP net.PacketConn
+	var addrs []string
+	c := cfg{Loops: 2, Net: "tcp", RCap: 1024, WCap: 1024}
+	switch kind {
+	case "tcp", "tcp-reuseport", "rotate-second-busy":
+		l, a := probeTCP("tcp4", "127.0.0.1")
+		if l == nil {
+			return false
+		}
+		holdL = l
+		addrs = []string{"tcp://" + a}
+		c.ReusePort = kind == "tcp-reuseport"
+		if kind == "rotate-second-busy" {
+			free := cfg{Net: "tcp"}.listenAddr()
+			addrs = []string{free, "tcp://" + a}
+		}
+	case "tcp6":
+		l, a := probeTCP("tcp6", "::1")
+		if l == nil {
+			return false
+		}
+		holdL = l
+		addrs = []string{"tcp6://" + a}
+	case "udp":
+		pc, err := net.ListenPacket("udp4", "127.0.0.1:0")
+		if err != nil {
+			return false
+		}
+		holdP = pc
+		addrs = []string{"udp://" + pc.LocalAddr().String()}
+		c.Net = "udp"
+	}
+	defer func() {
+		if holdL != nil {
+			_ = holdL.Close()
+		}
+		if holdP != nil {
+			_ = holdP.Close()
+		}
+	}()
+	before := fdTable()
+	done := make(chan error, 1)
+	go func() {
+		if len(addrs) > 1 {
+			done <- gnet.Rotate(mon, addrs, c.options()...)
+		} else {
+			done <- gnet.Run(mon, addrs[0], c.options()...)
+		}
+	}()
+	var err error
+	select {
+	case err = <-done:
+	case <-time.After(5 * time.Second):
+		res.Violate("C19 Run hangs although a listen address is in use kind="+kind, fmt.Sprintf("addresses %v: Run/Rotate has not returned 5s after it was called", addrs), map[string]any{"dump": trimDump(vlib.NormalizeDump(vlib.GoroutineDump()))})
+		return true
+	}
+	if err == nil {
+		res.Violate("C19 Run reported success although a listen address is in use kind="+kind, fmt.Sprintf("addresses %v", addrs), nil)
+		return true
+	}
+	time.Sleep(2 * time.Millisecond)
+	for _, a := range vsys.Alarms() {
+		res.Violate(fmt.Sprintf("C07 %s op=%s site=%s history=failed-start", a.Kind, a.Op, a.Site), fmt.Sprintf("Run on a busy address (%s): %s on fd %d: %s", kind, a.Kind, a.FD, a.Detail), map[string]any{"shim_log": vsys.LogTail(30)})
+	}
+	for _, fi := range vsys.Owned() {
+		if fi.Class == "adopted" || fdIdent(fi.FD) == "" {
+			continue
+		}
+		res.Violate(fmt.Sprintf("C07 leak class=%s site=%s history=failed-start", fi.Class, fi.Site), fmt.Sprintf("Run failed (%v) because the address is in use (%s) but descriptor %d (%s, created in %s) is still open", err, kind, fi.FD, fi.Class, fi.Site), nil)
+	}
+	// independent of the ledger: the process's descriptor table is what it was
+	for fd, id := range fdTable() {
+		if b, ok := before[fd]; ok && b == id {
+			continue
+		}
+		if strings.HasPrefix(id, "socket:") || strings.Contains(id, "eventpoll") || strings.Contains(id, "eventfd") {
+			time.Sleep(5 * time.Millisecond)
+			if fdIdent(fd) != id {
+				continue
+			}
+			if fi, known := vsys.Info(fd); known && fi.State == 1 {
+				continue // reported above with its creation site
+			}
+			res.Violate("C07 descriptor left open after a failed start kind="+kindOf(id), fmt.Sprintf("Run failed (%v) on a busy address (%s); fd %d -> %s was not open before and is still open", err, kind, fd, id), nil)
+		}
+	}
+	keys["failed-start|address-in-use|"+kind] = struct{}{}
 	return true
 }
